@@ -21,7 +21,13 @@ fn gen_px(rng: &mut Rng, kind: u64, idx: u64) -> [f32; 3] {
             let s = 10f64.powf(-rng.unit() * 8.0);
             [(rng.unit() * s) as f32, (rng.unit() * s) as f32, (rng.unit() * s) as f32]
         }
-        2 => [rng.unit() as f32, rng.unit() as f32, rng.unit() as f32],
+        2 => {
+            if idx % 32 == 2 {
+                crate::gen::related_px(rng, if idx % 64 == 2 { 1.0 } else { 4.0 })
+            } else {
+                [rng.unit() as f32, rng.unit() as f32, rng.unit() as f32]
+            }
+        }
         3 => [rng.range(-1.0, 4.0) as f32, rng.range(-1.0, 4.0) as f32, rng.range(-1.0, 4.0) as f32],
         4 => {
             let mut p = [0f32; 3];
